@@ -90,5 +90,6 @@ class ProductStructureKernel(Kernel):
         kernel matrix.
         """
         res = super().__call__(x1_, x2_, diag=diag, last_dim_is_batch=last_dim_is_batch, **params)
-        res = to_linear_operator(res).evaluate_kernel()
+        if not diag:
+            res = to_linear_operator(res).evaluate_kernel()
         return res
